@@ -27,11 +27,11 @@ Print Assumptions C02_absent_fields_invalid.
    decode_denote.  Vocabulary (Proofs/StreamDenoteDefs.v, all computable):
      stream_wf rs      every record is serialisable: all components bytes, global number < 65536, compressed offset
                        < 32, reserved bits 5-6 of every base-type byte zero (canon_bt);
-     no_time_quirk rs  the stream stays off the two recorded C12 defects: no explicit timestamp 0, no compressed
-                       step landing on 0, every valid local_date_time value meets a reference >= 0x10000000;
      denote rs         the reference semantics (Spec/FitSyntax.v); it checks [compat] for every definition;
-     Inv               decoder state ~ reference state (slots = environment, time reference, counters, File =
-                       File.add of the denoted messages in order).
+     Inv               decoder state ~ reference state (slots = environment, time reference with d.hasTimestamp <->
+                       a reference exists, counters, File = File.add of the denoted messages in order).
+   There is no time side condition: the two C12 time defects are repaired in the library (fixed: ac9b0b0, 2f21531)
+   and the stream theorems hold for ALL serialisable streams the reference semantics accepts.
    --------------------------------------------------------------------------------------------------------- *)
 
 (* one field: for every profile entry, every compatible definition (all integer base types, narrower definitions
@@ -52,7 +52,7 @@ Print Assumptions C02_native_field_agree.
    no Fail / I/O error / panic, invariant re-established with the state [denote_from] returns *)
 Theorem C02_decode_denote_records : forall rs o pre fb gb ft s0 ss0 ss1 tl t n lim fuel,
   Inv o pre fb gb ft s0 ss0 ->
-  stream_wf rs = true -> no_time_quirk_from ss0 rs = true -> denote_from ss0 rs = Some ss1 ->
+  stream_wf rs = true -> denote_from ss0 rs = Some ss1 ->
   (n + List.length (ser_records rs) = lim)%nat -> (List.length rs < fuel)%nat ->
   exists s1,
     run_a (decode_file_data o fuel) (Proofs.StreamDenoteBase.ast_at (ser_records rs) tl t n lim) s0 =
@@ -63,7 +63,7 @@ Print Assumptions C02_decode_denote_records.
 
 (* the whole buffered phase of decode (file_id prologue, File.init, record loop) on the abstract interpreter *)
 Theorem C02_decode_denote_abstract : forall o h g rs ss1 f2 g1 tl t,
-  starts_with_file_id rs = true -> stream_wf rs = true -> no_time_quirk rs = true -> denote rs = Some ss1 ->
+  starts_with_file_id rs = true -> stream_wf rs = true -> denote rs = Some ss1 ->
   start_file h g (hd dummy_msg (ss_msgs ss1)) = Some (f2, g1) ->
   let L := List.length (ser_records rs) in
   exists s1 f g',
@@ -77,11 +77,12 @@ Proof. exact decode_denote_abstract. Qed.
 (* decode_denote: the entry point Decode on a complete file (header ++ records ++ CRC, then anything), through ANY
    reader oracle (chunk schedule with empty reads, data-with-EOF, EOF or fault after the data): no error, the File
    holds exactly the messages of [denote] routed in stream order, header and CRC as on the wire, exactly the file's
-   bytes consumed.  Side conditions: header_wf, stream_wf, no_time_quirk, the stream starts with the file_id
-   definition and message, and its file type is one the library has a container for (start_file = Some). *)
+   bytes consumed.  It holds for every serialisable stream the reference semantics accepts; the remaining side
+   conditions: header_wf, stream_wf (incl. canon_bt), the stream starts with the file_id definition and message,
+   and its file type is one the library has a container for (start_file = Some). *)
 Theorem C02_decode_denote : forall o g rd fuel h rs ss1 f2 g1 extra,
   header_wf h -> h_dsize h = N.of_nat (List.length (ser_records rs)) ->
-  starts_with_file_id rs = true -> stream_wf rs = true -> no_time_quirk rs = true -> denote rs = Some ss1 ->
+  starts_with_file_id rs = true -> stream_wf rs = true -> denote rs = Some ss1 ->
   start_file h g (hd dummy_msg (ss_msgs ss1)) = Some (f2, g1) ->
   rd_data rd = fit_file h rs ++ extra ->
   (List.length (rd_data rd) + List.length (rd_sched rd) < fuel)%nat ->
@@ -100,7 +101,7 @@ Print Assumptions C02_decode_denote.
    type, local_date_time) read in chunks of 3, 0, 1, 7, ... bytes *)
 Example C02_decode_denote_example :
   header_wf ok_hdr /\ h_dsize ok_hdr = N.of_nat (List.length (ser_records ok_stream)) /\
-  starts_with_file_id ok_stream = true /\ stream_wf ok_stream = true /\ no_time_quirk ok_stream = true /\
+  starts_with_file_id ok_stream = true /\ stream_wf ok_stream = true /\
   (exists ss f2 g1, denote ok_stream = Some ss /\ start_file ok_hdr g_init (hd dummy_msg (ss_msgs ss)) = Some (f2, g1)) /\
   rd_data ok_reader = fit_file ok_hdr ok_stream ++ [1; 2; 3] /\
   (List.length (rd_data ok_reader) + List.length (rd_sched ok_reader) < 200)%nat /\
@@ -110,12 +111,13 @@ Example C02_decode_denote_example :
   end.
 Proof. exact Decode_denote_example. Qed.
 
-(* FULL STATEMENT (refuted): decode_denote without [no_time_quirk] / without [canon_bt].  The time side condition
-   is the pair of C12 known findings (witnesses in Props/C12.v); the reserved-bits condition is needed because
+(* FULL STATEMENT (refuted): decode_denote without [canon_bt].  (The former time side condition is gone: both C12
+   time defects are repaired, fixed: ac9b0b0, 2f21531; their witnesses are ordinary members of the domain now,
+   Props/C12.v.)  The reserved-bits condition is needed because
    the validator admits a base-type byte with bits 5-6 set (types.Base.Known looks at bits 0-4 and 7 only) while
    parseFitField switches on the whole byte: the reference semantics accepts the stream, the decoder fails *)
 Theorem C02_decode_denote_reserved_bits_refuted :
-  all_bytes (ser_records w_reserved) = true /\ stream_wf w_reserved = false /\ no_time_quirk w_reserved = true /\
+  all_bytes (ser_records w_reserved) = true /\ stream_wf w_reserved = false /\
   (exists a, spec_slots w_reserved = Some a) /\
   match model_run w_reserved with RFail EParseField _ _ => True | _ => False end.
 Proof. exact decode_denote_reserved_bits_refuted. Qed.
@@ -193,7 +195,7 @@ Theorem C02_DecodeChained_denote : forall o fs g rd fuel,
     List.length files' = List.length fs /\ chain_result o g fs files' g'.
 Proof. exact DecodeChained_denote. Qed.
 Print Assumptions C02_DecodeChained_denote.
-(* ... and each of them is the File (and accumulator state, and quirk tags) Decode returns on that file alone from
+(* ... and each of them is the File (and accumulator state, and the always empty tag list) Decode returns on that file alone from
    the same accumulator state (C10 flavour; rests on the tail-irrelevance of the abstract interpreter) *)
 Theorem C02_DecodeChained_is_map_Decode : forall o fs g rd fuel,
   fs <> [] -> chain_domain g fs -> rd_data rd = chain_bytes fs -> rd_term rd = TEOF ->
@@ -207,5 +209,6 @@ Example C02_DecodeChained_example :
   (List.length (rd_data ok_chain_reader) + List.length (rd_sched ok_chain_reader) < 400)%nat.
 Proof. exact ok_chain_in_domain. Qed.
 
-(* PARTIAL (what is not a theorem): streams on the recorded time-defect paths are outside the theorem (C12);
-   DecodeChained is lifted for chains ending in a clean EOF (a chain followed by garbage or a fault is C10/C11). *)
+(* PARTIAL (what is not a theorem): streams with reserved bits 5-6 set in a base-type byte are outside the theorem
+   (refuted above); DecodeChained is lifted for chains ending in a clean EOF (a chain followed by garbage or a fault
+   is C10/C11). *)
